@@ -19,7 +19,6 @@ import (
 	"encoding/json"
 	"fmt"
 	"os"
-	"sort"
 	"strconv"
 	"strings"
 
@@ -223,6 +222,34 @@ func classify(t, v string, out any) string {
 	return "other"
 }
 
+// Tree is a document stripped to its structure: leaves carry the type (input) or the class (output).
+type Tree struct {
+	K string `json:"k"`
+	T string `json:"t"`
+	F []any  `json:"f"`
+}
+
+func (d *Doc) tree(classes *[]Leaf, next *int) Tree {
+	t := Tree{K: d.K, T: "", F: []any{}}
+	switch d.K {
+	case "leaf":
+		t.T = d.T
+		if classes != nil {
+			t.T = (*classes)[*next].C
+			*next++
+		}
+	case "arr":
+		for _, k := range d.kids {
+			t.F = append(t.F, k.tree(classes, next))
+		}
+	case "obj":
+		for i, k := range d.kids {
+			t.F = append(t.F, []any{d.keys[i], k.tree(classes, next)})
+		}
+	}
+	return t
+}
+
 // compare walks input tree and output value together
 func compare(d *Doc, out any, path []string, leaves *[]Leaf, shape *string) {
 	note := func(what string) {
@@ -372,7 +399,14 @@ func main() {
 				compare(c.Doc, out, nil, &leaves, &shape)
 			}
 		}
-		sort.SliceStable(leaves, func(i, j int) bool { return strings.Join(leaves[i].P, "/") < strings.Join(leaves[j].P, "/") })
+		// document and (when the structure is preserved) the output with the class at every leaf, for the comparison with ObfI
+		ev["doc"] = c.Doc.tree(nil, nil)
+		if shape == "same" {
+			next := 0
+			ev["otree"] = c.Doc.tree(&leaves, &next)
+		} else {
+			ev["otree"] = Tree{K: "none", T: "", F: []any{}}
+		}
 		ev["shape"] = shape
 		ev["leaves"] = leaves
 		tr.Add(ev)
